@@ -474,7 +474,9 @@ int disasm_riscv(
 
   strcpy(instruction, "???");
 
-  return -1;
+  // An unknown 32 bit opcode still takes up 4 bytes (returning -1 made
+  // the callers that advance by this count step backwards forever).
+  return 4;
 }
 
 static int permutate_16(int opcode, int8_t *table)
